@@ -197,6 +197,8 @@ class Check(PropertyCheck):
     id = 'C13'
     props_module = 'Props.C13'
     models = {'qnmatch': 'XQnMatch.v'}
+    needs_gen = True
+    gen_modules = ['gen_c13_code', 'gen_c13_privacy']
     rule = ('(pattern, name) pairs: every pattern of length <= L over {a b . * ? [ ] ! - ^ \\} x every name of length <= 4 '
             'over {a b . _}, plus random longer ones; non-trivial = the pattern lexes to at least one of * ** ? [set]; '
             'rule lists: every list of <= 3 rules over 3 levels x {exact, pattern} per (target object, pattern text); '
@@ -207,6 +209,13 @@ class Check(PropertyCheck):
         'extraction: ExtrOcamlBasic only; OCaml 4.13.1; coq/ocaml/driver.ml',
         'Spec/ReFrag.v: hand-written reader+matcher for the fragment of CPython 3.12 `re` that translate emits '
         '(validated against the real re on every enumerated/generated pattern and on generated regex text, not proved)',
+        'translator harness/gen/gen_c13_privacy.py (body of System.privacyClass, with the helper it may delegate to, -> '
+        'Gen/PrivacyCode.v) and the interpreter Model/PrivacyIR.v (primitives: ob.fullName()/name/kind, options.privacy, the '
+        'cache dict as an association list, qnmatch.qnmatch, startswith/endswith, ==, is None); ',
+        'translator harness/gen/gen_c13_code.py (body of qnmatch.translate -> Gen/QnMatchCode.v, fail-closed, syntactic '
+        'desugarings only) and the interpreter Model/QnMatchIR.v, whose primitives (len, index, slice, find, startswith, '
+        'replace, %s formatting, join, append, re.escape table) state CPython\'s semantics as assumptions; the interpretation '
+        'of the generated code is also run against the real translate() on every enumerated/generated pattern',
         'Spec/Glob.v: the documented pattern meaning (validated against an independent Python matcher in harness/c13.py)',
         'correspondence harness harness/c13.py + harness/impl/c13_qnmatch.py, c13_privacy.py (real qnmatch, real System)',
         'modelled not verified: functools.lru_cache on _compile_pattern is transparent; str.upper/str.strip tables '
@@ -222,7 +231,12 @@ class Check(PropertyCheck):
                  'C13_privacy_raises_iff (total characterisation of privacyClass for every rule list), C13_precedence, '
                  'C13_exact_beats_patterns, C13_default_rule, C13_cache_transparent / C13_views_cache_transparent, '
                  'C13_visible_iff / C13_hidden_ancestor_hides / C13_private_iff, C13_parse_rule / C13_parse_rule_errors, '
-                 'C13_bad_range_refuted, C13_main_module_refuted / C13_documentable_partial. Tie: exhaustive '
+                 'C13_bad_range_refuted, C13_main_module_refuted / C13_documentable_partial. Tie to the source, two ways: '
+                 '(a) C13_code_translate_is_model / _text / _meaning: the body of qnmatch.translate() is translated from the '
+                 'current source into a small imperative language and its interpretation is proved equal to the model for every '
+                 'pattern (re-proved on every run), and C13_code_privacyClass_is_model / _precedence: likewise the whole body of '
+                 'System.privacyClass (cache, kind test, default rule, rule loops, store) for every rule list, cache and object; '
+                 '(b) exhaustive '
                  'pattern x name correspondence against the real qnmatch (patterns <= 4 quick / <= 5 thorough over 11 '
                  'characters x 341 names), random longer patterns, all rule lists <= 3 (also with meaningless rules) against the '
                  'real System.privacyClass / isVisible / isPrivate, every underscore shape of a short name, parse error messages.'),
@@ -379,6 +393,16 @@ class Check(PropertyCheck):
         impl = lib.run_impl_worker('c13_qnmatch.py', [['qn', p, NAME_ALPHA, NAME_MAXLEN] for p in pats], jobs=16)
         mod = self.model('qnmatch', [enc([1, p, NAME_ALPHA, NAME_MAXLEN]) for p in pats])
         spec = self.model('qnmatch', [enc([3, p, NAME_ALPHA, NAME_MAXLEN]) for p in pats])
+        # third leg: the interpretation of the code TRANSLATED from qnmatch.py (Gen/QnMatchCode.v) against the real translate()
+        code_tr = self.model('qnmatch', [enc([11, p]) for p in pats])
+        impl_tr = lib.run_impl_worker('c13_qnmatch.py', [['tr', p] for p in pats], jobs=8)
+        for p, m, i in zip(pats, code_tr, impl_tr):
+            m = dec(m)
+            mm = [0, lib.txt(m[1])] if m[0] == 0 else m
+            self.evaluations += 1
+            if mm != i:
+                self.add(out, Violation('correspondence', 'the interpretation of the translated code of translate() and the real '
+                                        'translate() disagree', case={'kind': 'translate', 'pattern': p}, expected=mm, observed=i))
         want = par_oracle_masks(pats)
         self.exhaustive = True
         self.stats['patterns'] = len(pats)
@@ -448,10 +472,15 @@ class Check(PropertyCheck):
         impl = lib.run_impl_worker('c13_qnmatch.py', [['qn1', p, n] for p, n in pairs], jobs=16)
         impl_tr = lib.run_impl_worker('c13_qnmatch.py', [['tr', p] for p in sorted(set(p for p, _ in pairs))])
         mod_tr = self.model('qnmatch', [enc([0, p]) for p in sorted(set(p for p, _ in pairs))])
-        for p, i, m in zip(sorted(set(p for p, _ in pairs)), impl_tr, mod_tr):
-            m = dec(m)
+        code_tr = self.model('qnmatch', [enc([11, p]) for p in sorted(set(p for p, _ in pairs))])
+        for p, i, m, cm in zip(sorted(set(p for p, _ in pairs)), impl_tr, mod_tr, code_tr):
+            m, cm = dec(m), dec(cm)
             mm = [0, lib.txt(m[1])] if m[0] == 0 else m
+            cmm = [0, lib.txt(cm[1])] if cm[0] == 0 else cm
             self.evaluations += 1
+            if cmm != i:
+                self.add(out, Violation('correspondence', 'the interpretation of the translated code of translate() and the real '
+                                        'translate() disagree', case={'kind': 'translate', 'pattern': p}, expected=cmm, observed=i))
             if mm != i:
                 self.add(out, Violation('correspondence', 'Model.QnMatch.translate and pydoctor.qnmatch.translate disagree',
                                         case={'kind': 'translate', 'pattern': p}, expected=mm, observed=i))
@@ -683,6 +712,21 @@ class Check(PropertyCheck):
         for c, obs in zip(cases, impl):
             minputs.append(enc([5, [[l, p] for l, p in c['rules']], [model_query(o) for o in obs]]))
         mod = self.model('qnmatch', minputs)
+        # further leg: the interpretation of the code TRANSLATED from System.privacyClass (Gen/PrivacyCode.v), on the
+        # privacyClass queries of each case in order (one cache)
+        cinputs = [enc([12, [[l, p] for l, p in c['rules']], [[o[0], o[1], o[2], o[3]] for o in obs if o[5] == 0]])
+                   for c, obs in zip(cases, impl)]
+        cmod = self.model('qnmatch', cinputs)
+        for c, obs, cm in zip(cases, impl, cmod):
+            want = [o[4] for o in obs if o[5] == 0]
+            got = dec(cm)
+            self.evaluations += len(want)
+            if got != want:
+                k = next(i for i, (a, b) in enumerate(zip(got, want)) if a != b)
+                self.add(out, Violation('correspondence', 'the interpretation of the translated code of System.privacyClass and the '
+                                        'real privacyClass disagree', case={'kind': 'privacy', 'rules': c['rules'],
+                                                                            'queries': [q for q in c['queries'] if q[0] in ('obj', 'ghost')], 'index': k},
+                                        expected=got[k], observed=want[k]))
         nt = 0
         for c, obs, m in zip(cases, impl, mod):
             m = dec(m)
@@ -724,7 +768,7 @@ class Check(PropertyCheck):
             qs = [[f, f.rpartition('.')[2], 1, int(f == '__main__')] for f in r.choices(['a.b', 'a', 'a._c', '__main__', 'a.__d__'], k=4)]
             inputs.append(enc([5, rules, qs]))
         a = self.model('qnmatch', inputs)
-        b = lib.run_model_vm('Model.Privacy', inputs)
+        b = lib.run_model_vm('Model.C13Run', inputs)
         self.stats['extraction_cross_checked'] = len(inputs)
         for i, x, y in zip(inputs, a, b):
             if dec(x) != dec(y):
